@@ -1,5 +1,13 @@
 """C11 - accepted deletions are permanent; deletion times never move backwards."""
+import os
+import random
+import re
+import shutil
+
+import common as C
 from dbengine import DbEngine
+from dbgen import HistGen, AUTHORS, addr_str
+from engine import Verdict
 
 
 class Engine(DbEngine):
@@ -9,6 +17,114 @@ class Engine(DbEngine):
     aspects = {'addrs.find', 'stats.del', 'addrs.asof', 'store.result', 'store.errclass', 'ids.del', 'rebuild-preserves', 'reopen-preserves', 'ids.has'}
     quick = (200, 35)
     thorough = (5000, 80)
-    rule = '1-4 deletion requests per id/address in every arrival order relative to each other and to the events they cover (before, after, resubmission), continuations with reopen/rebuild. oracle: store results (deleted vs accepted) and markers with their times equal the abstract store, whose deletion times are monotone by theorem. non-trivial = history with >= 2 stores'
+    rule = ('1-4 deletion requests per id/address in every arrival order relative to each other and to the events they cover (before, after, resubmission), '
+            'continuations with reopen/rebuild. oracle: store results (deleted vs accepted) and markers with their times equal the abstract store, whose '
+            'deletion times are monotone by theorem. non-trivial = history with >= 2 stores. Plus arrival orders that only exist with two submitters: '
+            'the covered event and the deletion request are offered by two threads of one Store under the schedule controller (every verif point a pause '
+            'point, seeded choice); whatever the interleaving, once the request has been accepted the covered event must be unretrievable at the end')
     trusted = DbEngine.db_trusted
     assumptions = []
+    races = {'quick': 120, 'thorough': 2500}
+
+    def make_race(self, rng):
+        """one covered event and one deletion request by its author (by id, by address, or both), offered
+        concurrently; sometimes a resubmission of the covered event by a third thread"""
+        sub = random.Random(rng.getrandbits(64))
+        g = HistGen(sub, {'new': 3, 'addr': 2}, sub.choice([0, 1, 3])).run()
+        setup = [g.render_op(op) for op in g.ops]
+        pk = sub.choice(AUTHORS)
+        by_addr = sub.random() < 0.5
+        if by_addr:
+            kind = sub.choice([30000, 30023, 10000])
+            d = sub.choice([b'', b'x', b'room'])
+            tags = [[b'd', d]] if kind >= 30000 else []
+            cov = g.new_event(kind=kind, pk=pk, created=500, tags=tags)
+            dk = d if kind >= 30000 else b''
+            dtags = [[b'a', addr_str(kind, pk, dk)]]
+            if sub.random() < 0.3:
+                dtags.append([b'e', cov['id'].hex().encode()])
+            dreq = g.new_event(kind=5, pk=pk, created=sub.choice([500, 501, 900]), tags=dtags)
+        else:
+            cov = g.new_event(kind=1, pk=pk, created=500, tags=[])
+            dreq = g.new_event(kind=5, pk=pk, created=sub.choice([400, 600]), tags=[[b'e', cov['id'].hex().encode()]])
+        cov['content'] = b'covered'
+        progs = [['store ' + C.t_event(cov)], ['store ' + C.t_event(dreq)]]
+        if sub.random() < 0.3:
+            progs.append(['store ' + C.t_event(cov)])
+        sub.shuffle(progs)
+        obs = 'obs %s L0' % C.tl([C.tb(cov['id']), C.tb(dreq['id'])])
+        names = C.tl(C.tb(n) for n in g.names)
+        line = 'conc %s %s %s ; S %s%s ; F ; %s' % (names, C.tn(sub.getrandbits(40)), C.tn(sub.choice([50, 150, 300, 600])),
+                                                   ''.join(' ; ' + o for o in setup), ''.join(' ; T' + ''.join(' ; ' + o for o in p) for p in progs), obs)
+        dpos = [t for t, p in enumerate(progs) if p[0] == 'store ' + C.t_event(dreq)][0]
+        return ('deletion-race:' + ('addr' if by_addr else 'id'), line), {'dreq_thread': dpos}
+
+    def judge_race(self, meta, out):
+        if not out.startswith('conc sched='):
+            return Verdict(oracle_ok=False, cls='concurrent-run-died', detail=out[:120], outcome='died')
+        if re.search(r'sched=\S*(WATCHDOG|DEADLOCK)', out):
+            return Verdict(corr_ok=False, cls='schedule-controller', detail='controller stuck', outcome='stuck')
+        rs = re.search(r' resp=(.*?) final=', out)
+        resp = {}
+        for part in (rs.group(1).split(' ;; ') if rs and rs.group(1) else []):
+            k, _, v = part.partition('=')
+            resp[k] = v
+        accepted = resp.get('%d.0' % meta['dreq_thread'], '').startswith('ok')
+        fin = re.search(r' final=ids=(\S*)', out)
+        flags = fin.group(1).split(',') if fin else []
+        if not flags:
+            return Verdict(corr_ok=False, cls='unparsable-output', detail=out[:120], outcome='unparsable')
+        has_cov = flags[0].startswith('1')
+        if accepted and has_cov:
+            return Verdict(oracle_ok=False, cls='covered-event-retrievable-after-accepted-deletion',
+                           detail='the deletion request was accepted (%s) and the event it covers is retrievable when all submitters have returned' % resp.get('%d.0' % meta['dreq_thread']),
+                           outcome='retrievable')
+        return Verdict(outcome='race-ok' if accepted else 'race-refused', nontrivial=True)
+
+    def run(self, rng, tier, seed):
+        res = super().run(rng, tier, seed)
+        rundir = os.path.join(C.CACHE, 'run', 'C11c-%d' % os.getpid())
+        os.makedirs(rundir, exist_ok=True)
+        env = dict(C.ENV)
+        env['VERIF_RUN_DIR'] = rundir
+        try:
+            cases = [self.make_race(rng) for _ in range(self.races['quick' if tier == 'quick' else 'thorough'])]
+            outs = C.run_lines(C.harness_exe('debug'), [c[0][1] for c in cases], env=env, shards=8)
+        finally:
+            shutil.rmtree(rundir, ignore_errors=True)
+        dist = res['stats']['distribution']
+        scheds = set()
+        for ((gcls, line), meta), o in zip(cases, outs):
+            v = self.judge_race(meta, o)
+            key = '%s/%s' % (gcls, v.outcome)
+            dist[key] = dist.get(key, 0) + 1
+            m = re.search(r'sched=(\S*)', o)
+            scheds.add(m.group(1) if m else line)
+            payload = {'kind': 'schedule', 'seed': seed, 'case': line, 'class': gcls, 'impl': o[:4000], 'dreq_thread': meta['dreq_thread']}
+            if not v.oracle_ok:
+                payload['oracle'] = v.detail
+                res['failures'].append(('oracle', v.cls, payload))
+            elif not v.corr_ok:
+                payload['correspondence'] = v.detail
+                res['failures'].append(('corr', v.cls, payload))
+        res['stats']['evaluations'] += len(cases)
+        res['stats']['distinct_nontrivial'] += len(scheds)
+        res['stats'].setdefault('extra', {})['deletion_races'] = len(cases)
+        res['failures'].sort(key=lambda f: (f[0] != 'oracle', len(f[2]['case'])))
+        return res
+
+    def replay(self, payload):
+        if payload.get('kind') != 'schedule':
+            return super().replay(payload)
+        rundir = os.path.join(C.CACHE, 'run', 'C11r-%d' % os.getpid())
+        os.makedirs(rundir, exist_ok=True)
+        env = dict(C.ENV)
+        env['VERIF_RUN_DIR'] = rundir
+        C.build_harness(self.profiles)
+        out = C.run_lines(C.harness_exe('debug'), [payload['case']], env=env)
+        shutil.rmtree(rundir, ignore_errors=True)
+        v = self.judge_race({'dreq_thread': payload.get('dreq_thread', 0)}, out[0])
+        print('case: %s' % payload['case'][:1500])
+        print('impl (this run; the schedule is re-derived from the same seed): %s' % out[0][:3000])
+        print('oracle: %s %s' % ('ok' if v.oracle_ok else 'FAILS', v.detail))
+        return 0 if (v.oracle_ok and v.corr_ok) else 1
